@@ -337,6 +337,7 @@ func c07Gen(g *Gen) {
 	c07GenSentLines(g, small, two)
 	c07GenLabelLengths(g)
 	c07GenLengthClasses(g, mid, two)
+	c07GenPooled(g, mid, two, one, small)
 	c07GenSample(g)
 	c07GenSampleLabelLengths(g)
 	c07GenSampleLengthClasses(g)
